@@ -101,7 +101,7 @@ func nearMisses(s string) []string {
 func genC11(t *rapid.T) c11Case {
 	s := genC11String(t, "s")
 	c := c11Case{S: s, Near: nearMisses(s)}
-	c.Op = rapid.SampledFrom([]string{"=", "!=", "in", "notin", "contains", "notcontains"}).Draw(t, "op")
+	c.Op = rapid.SampledFrom([]string{"=", "!=", "in", "notin", "contains", "notcontains", "anyof=", "anyofin", "allof!=", "anyofcontains"}).Draw(t, "op")
 	c.Other = genC11String(t, "other")
 	return c
 }
@@ -137,13 +137,47 @@ func runC11(c c11Case) kit.Result {
 	values := append([]string{c.S}, c.Near...)
 	values = append(values, c.Other)
 	for i, v := range values {
-		d.People = append(d.People, kit.Person{ID: fmt.Sprintf("p%02d", i), F: map[string]kit.Val{"sa": kit.SV(v)}})
+		// the row's string set holds its own value and, on odd rows, the next value as well (so sets with and
+		// without s, and sets holding only a near-miss that has s as a prefix, all occur)
+		roles := []string{v}
+		if i%2 == 1 {
+			roles = append(roles, values[(i+1)%len(values)])
+		}
+		d.People = append(d.People, kit.Person{ID: fmt.Sprintf("p%02d", i), F: map[string]kit.Val{"sa": kit.SV(v)}, Roles: kit.StrSet{Present: true, Elems: roles}})
 	}
-	d.People = append(d.People, kit.Person{ID: "pnull", F: map[string]kit.Val{"sa": kit.NullV()}})
+	d.People = append(d.People, kit.Person{ID: "pnull", F: map[string]kit.Val{"sa": kit.NullV()}, Roles: kit.StrSet{Present: true, Elems: []string{c.S + "x", "zz"}}})
 
 	var filter string
 	var want func(v *string) bool
+	var wantSet func(elems []string) bool
+	has := func(elems []string, x string) bool {
+		for _, e := range elems {
+			if e == x {
+				return true
+			}
+		}
+		return false
+	}
 	switch c.Op {
+	case "anyof=":
+		filter = "anyOf(roles) = " + lit
+		wantSet = func(elems []string) bool { return has(elems, c.S) }
+	case "anyofin":
+		filter = "anyOf(roles) in [" + quoteZql(c.Other) + ", " + lit + "]"
+		wantSet = func(elems []string) bool { return has(elems, c.S) || has(elems, c.Other) }
+	case "allof!=":
+		filter = "allOf(roles) != " + lit // every row's set is non-empty
+		wantSet = func(elems []string) bool { return !has(elems, c.S) }
+	case "anyofcontains":
+		filter = "anyOf(roles) contains " + lit
+		wantSet = func(elems []string) bool {
+			for _, e := range elems {
+				if strings.Contains(e, c.S) {
+					return true
+				}
+			}
+			return false
+		}
 	case "=":
 		filter = "sa = " + lit
 		want = func(v *string) bool { return v != nil && *v == c.S }
@@ -170,7 +204,7 @@ func runC11(c c11Case) kit.Result {
 			s := v.S
 			vp = &s
 		}
-		if want(vp) {
+		if (want != nil && want(vp)) || (wantSet != nil && wantSet(p.Roles.Elems)) {
 			expect = append(expect, p.ID)
 		}
 	}
@@ -222,7 +256,7 @@ func TestC11(t *testing.T) {
 		ID:    "C11",
 		Level: "exploration",
 		Rule: "strings of 0-12 runes over an alphabet biased to backslash, quote, the letters n t r f and the four escapable control characters (10% any printable rune); " +
-			"each case checks ParseZqlString(quote(s))==s and one query (= != in 'not in' contains 'not contains') over rows holding s, near-misses of s and null, " +
+			"each case checks ParseZqlString(quote(s))==s and one query (= != in 'not in' contains 'not contains' on a string field; anyOf = / anyOf in / allOf != / anyOf contains on a string set) over rows holding s, near-misses of s (incl. strings s is a prefix of) and null, " +
 			"via in-memory symbols and via a bolt store. Non-trivial: s has a backslash directly followed by one of n t r f \" \\, or >= 2 characters that need escaping. Distinct by hash of the case JSON.",
 		Assumptions: []string{
 			"control characters other than LF TAB CR FF have no literal form and are outside the property's domain",
